@@ -26,6 +26,7 @@ ORTHO_TOL = 1e-5    # RotVecToMat: |m m^T - I|, |det - 1|
 HALF_TURN_MARGIN = 0.05   # "below a half turn": |v| <= pi - 0.05 for the RotMatToVec round trip
 KNOWN_AVG = "C20-average-rotation-overcorrects"
 KNOWN_HALF = "C20-rotmattovec-symmetric-half-turn"
+KNOWN_MB = "C20-miniball-float-cospherical"
 
 
 # ------------------------------------------------------------------------------------------------
@@ -290,7 +291,7 @@ def frs(q):
 def point_sets(rng, count):
     sets = []
     for _ in range(count):
-        kind = rng.choice(["single", "dup", "pair", "collinear", "coplanar", "cube", "random", "random", "cluster", "big"])
+        kind = rng.choice(["single", "dup", "pair", "collinear", "coplanar", "cube", "box", "box", "random", "random", "cluster", "big"])
         mx = rng.choice([1.0, 10.0, 100.0, 1e3, 1e4])
         if kind == "single":
             pts = [rand_vec(rng, mx)]
@@ -309,6 +310,16 @@ def point_sets(rng, count):
             c, h = rand_vec(rng, mx), abs(dyadic(rng, mx)) + 0.5
             pts = [[f32(c[0] + sx * h), f32(c[1] + sy * h), f32(c[2] + sz * h)] for sx in (-1, 1) for sy in (-1, 1) for sz in (-1, 1)]
             pts += [list(p) for p in rng.sample(pts, 2)]
+        elif kind == "box":
+            # corners of a box with full-mantissa coordinates (cospherical: Miniball's degenerate case), shuffled
+            c = [f32(rng.uniform(-mx, mx)) for _ in range(3)]
+            h = [f32(rng.uniform(0.1, mx)) for _ in range(3)]
+            if rng.random() < 0.5:
+                h = [h[0]] * 3
+            pts = [[f32(c[0] + sx * h[0]), f32(c[1] + sy * h[1]), f32(c[2] + sz * h[2])] for sx in (-1, 1) for sy in (-1, 1) for sz in (-1, 1)]
+            if rng.random() < 0.3:
+                pts += [list(p) for p in rng.sample(pts, 2)]
+            rng.shuffle(pts)
         elif kind == "cluster":
             c = [f32(rng.uniform(-mx, mx)) for _ in range(3)]
             pts = [[f32(c[i] + rng.uniform(-1, 1) * mx * 1e-3) for i in range(3)] for _ in range(rng.randint(3, 12))]
@@ -332,7 +343,8 @@ def gen_cases(tier, rng):
                                  0.143987462, 0.568766236, 0.809797883)]
     near_half_z = rodrigues_nifly([0.0, 0.0, 1.0], math.pi - 1e-4)
     perm_half = [-1.0, 0.0, 0.0, 0.0, 0.0, -1.0, 0.0, -1.0, 0.0]
-    for r, n in ((half_sym, 1), (half_sym, 3), (near_half_z, 10), (near_half_z, 1), (perm_half, 2), (perm_half, 1),
+    for r, n in ((half_sym, 1), (half_sym, 3), (near_half_z, 10), (near_half_z, 100), (near_half_z, 1), (perm_half, 2), (perm_half, 1),
+                 (rodrigues_nifly([0.6, 0.0, 0.8], math.pi - 1.0), 100),
                  (rodrigues_nifly([0.0, 0.0, 1.0], math.atan2(4, 3)), 5)):
         one = fl(r + [1.0, -2.0, 3.0, 2.0])
         cases.append("avg ts=%s" % ";".join([one] * n))
@@ -340,6 +352,12 @@ def gen_cases(tier, rng):
         cases.append("avg ts=%s" % one)
     cases.append("inverse %s v=5,0,1" % xf_kv([0.6, 0.8, 0.0, -0.8, 0.6, 0.0, 0.0, 0.0, 1.0], [1.0, -2.0, 3.0], 2.0))
     cases.append("rodrigues n=0/1,0/1,1/1 c=3/5 s=4/5 v=%s" % fl([0.0, 0.0, f32(math.atan2(4, 3))]))
+    box_witness = [[97.2033538818359375, -80.84381866455078125, -45.2521820068359375], [-17.796649932861328125, 34.15618133544921875, 69.7478179931640625],
+                   [97.2033538818359375, 34.15618133544921875, 69.7478179931640625], [97.2033538818359375, 34.15618133544921875, -45.2521820068359375],
+                   [97.2033538818359375, -80.84381866455078125, 69.7478179931640625], [-17.796649932861328125, 34.15618133544921875, -45.2521820068359375],
+                   [-17.796649932861328125, -80.84381866455078125, 69.7478179931640625], [-17.796649932861328125, -80.84381866455078125, -45.2521820068359375]]
+    cases.append("bsphere kind=box pts=%s" % pts_str(box_witness))
+    cases.append("bounds ver=sse kind=box pts=%s" % pts_str(box_witness))
     cases.append("bsphere kind=single pts=1:2:3")
     cases.append("bsphere kind=pair pts=0:0:0;2:0:0")
     n_main = 250 if q else 2500
@@ -672,6 +690,26 @@ def avg_known_match(case, ev, median_ok, single_ok):
     return median_ok and single_ok
 
 
+def miniball_known_match(case, ev):
+    """the recorded defect: Miniball instantiated with float (BoundingSphere(vertices)) stops its pivot
+    loop early on COSPHERICAL points - here: at least 5 distinct points that all lie on the sphere
+    around their bounding-box centre through the box corners (the corners of a box) - and returns a
+    sphere that misses points and/or exceeds the bounding-box sphere.  Only these two laws fail."""
+    op, a = kv(case)
+    if op not in ("bsphere", "bounds", "bounds2"):
+        return False
+    pts = list(dict.fromkeys(tuple(float(Decimal(x)) for x in p.split(":")) for p in a["pts"].split(";")))
+    if len(pts) < 5:
+        return False
+    lo = [min(p[i] for p in pts) for i in range(3)]
+    hi = [max(p[i] for p in pts) for i in range(3)]
+    ctr = [(lo[i] + hi[i]) / 2 for i in range(3)]
+    half = 0.5 * math.dist(lo, hi)
+    if half <= 0 or any(abs(math.dist(p, ctr) - half) > 1e-5 * half for p in pts):
+        return False
+    return bool(ev.fails) and all(k == "law" and (w.startswith("bounding sphere misses a point") or w.startswith("bounding sphere radius")) for k, w in ev.fails)
+
+
 def halfturn_known_match(case, ev, I):
     """the recorded defect: RotMatToVec on a half-turn matrix that is EXACTLY symmetric (skew part
     0) while its binary32 trace gives cosang just above -1 takes the acos branch, normalises the zero
@@ -758,18 +796,26 @@ def run(tier, seed, replay=None):
                 corr_v.append((c, il, ml, ev))
     known_hits = 0
     per_head = {}
+    back = {}
     for (c, il, ml, ev) in law_v:
         med = results.get("median " + c.split(" ", 1)[1]) if c.startswith("avg ") else None
         one = results.get("avg ts=" + c.split("ts=", 1)[1].split(";")[0]) if c.startswith("avg ") else None
         median_ok = med is not None and not med[1].fails
         single_ok = one is not None and not one[1].fails
-        if any(k["id"] == KNOWN_AVG for k in rep.known) and avg_known_match(c, ev, median_ok, single_ok):
-            rep.known_finding(KNOWN_AVG, c[:200])
-            known_hits += 1
-            continue
-        if any(k["id"] == KNOWN_HALF for k in rep.known) and halfturn_known_match(c, ev, parse_i(il)):
-            rep.known_finding(KNOWN_HALF, c[:200])
-            known_hits += 1
+        # recorded defects: KNOWN-FINDING while the entry has status "known"; once it is "fixed" the same
+        # input class failing again is a violation ("the repaired defect is back")
+        kid = KNOWN_AVG if avg_known_match(c, ev, median_ok, single_ok) else KNOWN_HALF if halfturn_known_match(c, ev, parse_i(il)) \
+            else KNOWN_MB if miniball_known_match(c, ev) else None
+        if kid is not None:
+            if any(k["id"] == kid for k in rep.known):
+                rep.known_finding(kid, c[:200])
+                known_hits += 1
+            else:
+                back[kid] = back.get(kid, 0) + 1
+                if back[kid] <= 2:
+                    rep.violation("the repaired defect %s is back: %s" % (kid, [w for k, w in ev.fails if k == "law"][0][:160]),
+                                  {"case": c, "family": "xform", "impl": il, "model": ml, "failures": [w for _, w in ev.fails][:10],
+                                   "tolerance": "TOL=%g relative to the magnitude of the computation" % TOL})
             continue
         head = [w for k, w in ev.fails if k == "law"][0].split(":")[0].split("[")[0]
         per_head[head] = per_head.get(head, 0) + 1
@@ -785,7 +831,7 @@ def run(tier, seed, replay=None):
     cov.update({
         "evaluations": len(cases),
         "distinct_nontrivial": len(nontriv),
-        "rule": "seeded random cases per operation (see input_distribution): rotations = all 48 signed permutation matrices, Rodrigues matrices of random axis/angle rounded to binary32 (incl. angles within 1e-5..1e-2 of a half turn), general invertible matrices (small dyadic and random binary32 entries), near-singular / exactly singular / extreme-scale / huge-translation transforms (generated, evaluated, but only counted: ill_conditioned_*); point sets = single, duplicates, pairs, collinear, coplanar, cube corners, clusters far from the origin, up to 120 random points. Every input number is a binary32 value written as its exact decimal expansion. A case is non-trivial when its rotation/matrix is not the identity (transform ops), its vector is non-zero (rotvec), or it has at least two distinct points (bounding spheres); distinct = distinct case lines.",
+        "rule": "seeded random cases per operation (see input_distribution): rotations = all 48 signed permutation matrices, Rodrigues matrices of random axis/angle rounded to binary32 (incl. angles within 1e-5..1e-2 of a half turn), general invertible matrices (small dyadic and random binary32 entries), near-singular / exactly singular / extreme-scale / huge-translation transforms (generated, evaluated, but only counted: ill_conditioned_*); point sets = single, duplicates, pairs, collinear, coplanar, cube corners (dyadic), box corners with full-mantissa coordinates in random order, clusters far from the origin, up to 120 random points. Every input number is a binary32 value written as its exact decimal expansion. A case is non-trivial when its rotation/matrix is not the identity (transform ops), its vector is non-zero (rotvec), or it has at least two distinct points (bounding spheres); distinct = distinct case lines.",
         "samples": [c[:400] for c in (cases[:2] + cases[len(cases) // 3:len(cases) // 3 + 2] + cases[-2:])],
         "input_distribution": ops,
         "traces_validated_against_impl": len(cases),
@@ -794,13 +840,15 @@ def run(tier, seed, replay=None):
         "ill_conditioned_exceeding_tolerance": ill_exceed,
         "law_failures_on_impl": len(law_v) - known_hits,
         "known_finding_hits": known_hits,
+        "repaired_defects_back": back,
         "correspondence_mismatches": len(corr_v),
         "tolerance": "I vs exact M and every law: |diff| <= %g * max(1, magnitude of the largest intermediate of that computation) (pure matrix results: relative to the largest entry of the exact result); RotVecToMat orthonormality/determinant %g absolute; RotMatToVec round trip only for |v| <= pi - %g; medians of translation/scale and CalcMedianOfFloats: exact; spheres: every point within radius + %g*(radius+max|coord|), radius <= half bbox diagonal * (1+%g)" % (TOL, ORTHO_TOL, HALF_TURN_MARGIN, TOL, TOL),
         "worst_error_over_tolerance_by_op": {k: round(v, 4) for k, v in sorted(worst.items())},
         "well_conditioned_means": "finite; 1e-2 <= |rotation|_F <= 1e2 and |det|/|rotation|_F^3 >= 1e-2 (orthonormal = 0.19); scale in [1e-2, 1e2]; |translation|, |v| <= 1e5; avg/median: proper rotations (orthonormal, det +1 within 1e-5); Matrix4: |det|/|m|_F^4 >= 1e-3 or small integers",
         "unproved": [
             "mat_to_vec_inverse (RotMatToVec o RotVecToMat = id below a half turn): only its algebraic core is proved (C20_rotvec_trace, C20_rotvec_axis); asin/acos/sqrt are outside the model; tested on the implementation",
-            "average_of_copies / median_of_copies for the ROTATION part (CalcAverageRotation / CalcMedianRotation go through RotMatToVec): tested on the implementation only; translation and scale parts are proved (C20_average_of_copies_ts, C20_median_of_copies)",
+            "average_of_copies / median_of_copies for the ROTATION part: proved for the two-pass scheme of the repaired CalcAverageRotation (sum2 / n) and of CalcMedianRotation with RotMatToVec / RotVecToMat as PARAMETERS (C20_avg_rotation_of_copies, C20_median_rotation_of_copies: hypotheses = orthonormal base, exact rotation-vector round trip on the rebased matrix); that the real RotMatToVec / RotVecToMat meet these hypotheses (up to rounding) is tested on the implementation only; translation and scale parts are proved (C20_average_of_copies_ts, C20_median_of_copies)",
+            "RotMatToVec branch selection (cosang thresholds, the repaired fall-through to the half-turn case when the skew part vanishes): only the algebra behind it is proved (C20_rotvec_skew_zero, C20_rotvec_half_turn_sq); tested on the implementation",
             "Miniball.hpp / BoundingSphere(vertices) / UpdateBounds: not modelled; C20_meb_le_bbox proves only the mathematical fact (over Q, squared distances) that an IDEAL minimum enclosing ball contains every point and is no larger than the bounding-box-diagonal ball; that the C++ returns such a ball is tested (containment and radius bound on every generated point set), not proved",
             "every 'within float tolerance' claim: no binary32 error analysis; the exact laws are proved, the float code is compared with the exact rational result on each case",
         ],
